@@ -23,7 +23,16 @@ pub fn test_tree(c: &TreeCase) -> Verdict {
     let r = guard(|| -> Result<(), String> {
         let mut a = Allocator::new();
         let node = build(&mut a, d).map_err(|e| format!("build: {e}"))?;
+        // the costed hashers walk every occurrence of a shared sub-tree (that is what they charge for): bound the expanded size
+        let expanded = {
+            let mut i = crate::dag::Interner::new();
+            let id = i.dag(d);
+            i.tree_size(id)
+        };
         for bits in [0u32, F_NEW_COST] {
+            if expanded > (1 << 21) {
+                break;
+            }
             let red = tree_hash_costed(&mut a, node, u64::MAX, flags(bits)).map_err(|e| format!("tree_hash_costed: {e}"))?;
             if a.atom(red.1).as_ref() != want {
                 return Err(format!("tree_hash_costed(flags={bits:#x}) = {}", hex::encode(a.atom(red.1).as_ref())));
